@@ -20,8 +20,8 @@ func genJson(c *Ctx) string {
 	b.WriteString("\n")
 	// ---- client models ----
 	type field struct {
-		json string
-		typ  string
+		json   string
+		typ    string
 		goName string
 	}
 	structs := map[string][]field{}
@@ -152,6 +152,17 @@ func genJson(c *Ctx) string {
 		}
 		citems = append(citems, fmt.Sprintf("(%s, %s)", coqString(f.json), coqList(ls)))
 	}
+	// the message object itself: (lower-cased Go field name, JSON name) on both sides
+	var cmf, smf []string
+	for _, f := range root {
+		cmf = append(cmf, fmt.Sprintf("(%s, %s)", coqString(strings.ToLower(f.goName)), coqString(f.json)))
+	}
+	for _, t := range c.tags {
+		smf = append(smf, fmt.Sprintf("(%s, %s)", coqString(strings.ToLower(t.MsgField)), coqString(t.MsgJSON)))
+	}
+	b.WriteString("(* the message object: (lower-cased Go field name, JSON name) in the generated client model and in FEDWireMessage *)\n")
+	fmt.Fprintf(&b, "Definition client_msg_names : list (string * string) :=\n  %s.\n\n", coqListNL(cmf, "  "))
+	fmt.Fprintf(&b, "Definition server_msg_names : list (string * string) :=\n  %s.\n\n", coqListNL(smf, "  "))
 	b.WriteString("(* generated client models: element of the message object -> (Go field path, JSON path) of each leaf *)\n")
 	fmt.Fprintf(&b, "Definition client_fields : list (string * list (string * list string)) :=\n  %s.\n\n", coqListNL(citems, "  "))
 
